@@ -162,6 +162,11 @@ func c15Prop(rt *rapid.T, rec *ev.Recorder) {
 			}
 			pending = keptPending
 			if processed >= f {
+				if rapid.Bool().Draw(rt, "abandonedQueryBeforeReorg") {
+					// a reader gives up on a query of the syncer's store right before the reorg is handled (its pooled
+					// connection is discarded by database/sql; the reorg runs on a fresh one)
+					_, _ = store.GetLatestInfoUntilBlock(newScriptedCtx(rapid.IntRange(1, 4).Draw(rt, "abandonAt")), processed)
+				}
 				if err := store.VerifReorg(bg, f); err != nil {
 					fatal(rt, "INCONCLUSIVE: store refused a reorg: %v", err)
 				}
@@ -220,6 +225,9 @@ func c15Prop(rt *rapid.T, rec *ev.Recorder) {
 				last := i == k-1 || len(pending) == 1
 				if len(pending[0].Events) > 0 || last {
 					if err := store.VerifProcessBlock(bg, pending[0]); err != nil {
+						if reorgs > 0 {
+							fatal(rt, "after an L1 reorg the L1 info store refuses the next valid block of the canonical chain (%v): the syncer is stuck and the oracle can no longer learn newer finalized roots\n  schedule: %v", err, trace)
+						}
 						fatal(rt, "INCONCLUSIVE: store refused a valid block: %v", err)
 					}
 					processed = pending[0].Num
